@@ -128,11 +128,27 @@ func (o *vectorOperator) initOutputs(ctx context.Context) error {
 	keepName := !shouldDropMetricName(o.opType, o.returnBool)
 	highCardHashes, highCardInputMap := o.hashSeries(highCardSide, keepLabels, keepName, buf)
 	lowCardHashes, lowCardInputMap := o.hashSeries(lowCardSide, keepLabels, keepName, buf)
-	output, highCardOutputIndex, _ := o.join(highCardHashes, highCardInputMap, lowCardHashes, lowCardInputMap, includeLabels)
+	output, highCardOutputIndex, _ := o.join(highCardHashes, highCardInputMap, lowCardHashes, lowCardInputMap, lowCardSide, includeLabels)
 
-	series := make([]labels.Labels, len(output))
+	// Pairings with equal output labels feed the same output series: they may
+	// take turns over time, and fail the query when they coincide at a step.
+	series := make([]labels.Labels, 0, len(output))
+	outputIDs := make(map[string]uint64, len(output))
+	remap := make([]uint64, len(output))
 	for _, s := range output {
-		series[s.ID] = s.Metric
+		key := s.Metric.String()
+		id, ok := outputIDs[key]
+		if !ok {
+			id = uint64(len(series))
+			outputIDs[key] = id
+			series = append(series, s.Metric)
+		}
+		remap[s.ID] = id
+	}
+	for _, outputID := range highCardOutputIndex {
+		if outputID != nil {
+			*outputID = remap[*outputID]
+		}
 	}
 	o.series = series
 
@@ -157,19 +173,6 @@ func (o *vectorOperator) initOutputs(ctx context.Context) error {
 	highCardSignatures := signatureIDs(len(highCardSide), highCardInputMap)
 	lowCardSignatures := signatureIDs(len(lowCardSide), lowCardInputMap)
 
-	// Output series with equal labels share a group.
-	outputGroups := make([]int, len(series))
-	outputGroupIDs := make(map[string]int, len(series))
-	for i, s := range series {
-		key := s.String()
-		id, ok := outputGroupIDs[key]
-		if !ok {
-			id = len(outputGroupIDs)
-			outputGroupIDs[key] = id
-		}
-		outputGroups[i] = id
-	}
-
 	o.table = newTable(
 		o.pool,
 		o.matching.Card,
@@ -178,7 +181,7 @@ func (o *vectorOperator) initOutputs(ctx context.Context) error {
 		highCardSignatures,
 		lowCardSignatures,
 		len(signatures),
-		outputGroups,
+		len(series),
 	)
 
 	return nil
@@ -289,6 +292,7 @@ func (o *vectorOperator) join(
 	highCardInputIndex map[uint64][]uint64,
 	lowCardHashes map[uint64][]model.Series,
 	lowCardInputIndex map[uint64][]uint64,
+	lowCardSide []labels.Labels,
 	includeLabels []string,
 ) ([]model.Series, []*uint64, [][]uint64) {
 	// Output index points from output series ID
@@ -318,7 +322,9 @@ func (o *vectorOperator) join(
 			lowCardOutputIndex[lowCardSeriesID] = make([]uint64, 0, len(highCardSeries))
 		}
 
+		// Included labels come from the complete labels of the "one" side.
 		lowCardSeries := lowCardHashes[hash][0]
+		lowCardSeries.Metric = lowCardSide[lowCardSeries.ID]
 		for i, output := range highCardSeries {
 			outputSeries := buildOutputSeries(uint64(len(outputIndex)), output, lowCardSeries, includeLabels)
 			outputIndex = append(outputIndex, outputSeries)
